@@ -3034,7 +3034,7 @@ class NotificationParametersExtendedParametersType(Choice):
         , Element('octet', OctetString)
         , Element('bitstring', BitString)
         , Element('enum', Enumerated)
-        , Element('propertyValue', DeviceObjectPropertyValue)
+        , Element('propertyValue', DeviceObjectPropertyValue, 0)
         ]
 
 class NotificationParametersExtended(Sequence):
